@@ -165,6 +165,129 @@ EXTRA_CONFS = [
 ]
 
 
+# ---- a peer that holds the keys and misbehaves (sim/deviant.py): the honest side's validation branches -------------
+_RESP = {   # honest initiator A, deviant responder B
+    'handshake': [('init', ['sa_extra_transform', 'invalid_ke_31', 'invalid_ke_14', 'drop_ke', 'drop_nonce', 'drop_sa',
+                            'no_proposal_chosen', 'add_unknown_notify', 'add_error_notify', 'nonce_short', 'ke_group_14']),
+                  ('auth', ['id_data', 'id_type', 'auth_garbage', 'auth_method', 'ts_wider', 'ts_other_port', 'mode_flip',
+                            'sa_extra_transform', 'sa_spi_long', 'drop_sa', 'drop_tsi', 'drop_tsr', 'drop_auth', 'drop_id',
+                            'no_proposal_chosen', 'ts_unacceptable', 'authentication_failed', 'add_error_notify',
+                            'add_unknown_notify', 'add_vendor', 'empty'])],
+    'new_child': [('child', ['ts_wider', 'ts_other_port', 'mode_flip', 'sa_extra_transform', 'no_additional_sas',
+                             'temporary_failure', 'invalid_ke_14', 'drop_nonce', 'drop_sa', 'drop_tsi', 'sa_spi_long',
+                             'no_proposal_chosen', 'ts_unacceptable', 'add_error_notify', 'empty'])],
+    'rekey_child': [('child', ['ts_wider', 'mode_flip', 'sa_extra_transform', 'child_sa_not_found', 'temporary_failure',
+                               'no_additional_sas', 'drop_nonce', 'sa_spi_long', 'empty']),
+                    ('info', ['delete_unknown_spi', 'drop_delete', 'delete_twice', 'add_error_notify'])],
+    'rekey_ike': [('child', ['no_additional_sas', 'invalid_ke_14', 'invalid_ke_19', 'invalid_ke_31', 'sa_extra_transform',
+                             'drop_ke', 'drop_nonce', 'drop_sa', 'temporary_failure', 'no_proposal_chosen', 'empty'])],
+    'delete_child': [('info', ['delete_unknown_spi', 'drop_delete', 'delete_twice', 'add_error_notify', 'add_vendor'])],
+    'delete_ike': [('info', ['add_error_notify', 'add_vendor'])],
+    'dpd': [('info', ['add_error_notify', 'add_vendor', 'drop_delete'])],
+}
+_REQ = {    # honest responder B, deviant initiator A
+    'handshake': [('init', ['sa_unsupported', 'drop_ke', 'drop_nonce', 'drop_sa', 'ke_group_14', 'nonce_short',
+                            'add_vendor', 'add_unknown_notify', 'add_error_notify', 'empty']),
+                  ('auth', ['id_data', 'id_type', 'auth_garbage', 'auth_method', 'ts_elsewhere', 'ts_wider',
+                            'ts_other_port', 'mode_flip', 'sa_unsupported', 'sa_extra_transform', 'drop_tsi', 'drop_tsr',
+                            'drop_auth', 'drop_id', 'drop_sa', 'add_vendor', 'add_error_notify', 'empty'])],
+    'new_child': [('child', ['ts_elsewhere', 'ts_wider', 'ts_other_port', 'mode_flip', 'sa_unsupported', 'drop_nonce',
+                             'drop_sa', 'drop_tsi', 'add_error_notify', 'empty'])],
+    'rekey_child': [('child', ['rekey_unknown_spi', 'ts_other_port', 'ts_wider', 'mode_flip', 'sa_unsupported',
+                               'drop_nonce', 'empty']),
+                    ('info', ['delete_unknown_spi', 'delete_twice', 'drop_delete', 'empty'])],
+    'rekey_ike': [('child', ['sa_unsupported', 'drop_ke', 'drop_nonce', 'ke_group_14', 'sa_extra_transform', 'empty'])],
+    'delete_child': [('info', ['delete_unknown_spi', 'delete_twice', 'drop_delete', 'empty', 'add_error_notify'])],
+    'delete_ike': [('info', ['drop_delete', 'add_vendor'])],
+}
+# honest peers whose configurations differ (both sides are compared)
+ASYM_CONFS = [
+    ('b_narrower_port', {'over_a': {'protect': {'peer_port': 0}}, 'over_b': {'protect': {'my_port': 80}}}),
+    ('a_wider_subnet', {'over_a': {'protect': {'my_subnet': '192.168.0.0/24', 'peer_subnet': '192.168.0.0/24'}}}),
+    ('b_other_subnet', {'over_b': {'protect': {'my_subnet': '10.1.0.0/16'}}}),
+    ('b_tunnel', {'over_b': {'protect': {'mode': 'tunnel'}}}),
+    ('b_other_child_encr', {'over_b': {'protect': {'encr': ['aes128']}}}),
+    ('b_disjoint_child_integ', {'over_b': {'protect': {'integ': ['sha512']}}}),
+    ('b_disjoint_ike_encr', {'over_b': {'conn': {'encr': ['aes128']}}}),
+    ('b_ike_prf_subset', {'prf': ('sha512', 'sha256'), 'over_b': {'conn': {'prf': ['sha256']}}}),
+    ('a_wrong_psk_for_b', {'over_a': {'peer_auth': {'psk': 'not-bobs'}}}),
+    ('a_wrong_id_for_b', {'over_a': {'peer_auth': {'id': 'carol@openikev2'}}}),
+    ('b_wrong_id_for_a', {'peer_id_seen_by_b': 'carol@openikev2'}),
+    ('b_id_type_for_a', {'peer_id_seen_by_b': 'alice.openikev2'}),
+    ('b_two_protect', {'over_b': {'more_protect': [{'index': 7, 'my_port': 81, 'mode': 'tunnel'}]}}),
+    ('b_pfs_only', {'child_dh': (), 'child_dh_b': ('14',)}),
+    ('a_pfs_b_none', {'child_dh': ('14',), 'child_dh_b': ()}),
+    ('b_short_lifetime', {'over_b': {'protect': {'lifetime': 5}, 'conn': {'lifetime': 20, 'dpd': 7}}}),
+]
+
+
+def deviant_set(deep, seed=0):
+    """(label, actions, conf, seed, skipped endpoints)"""
+    from sim.scenarios import scripted
+    import random
+    out = []
+    tail = [['deliver', 0]] * 4 + [['tick', 1], ['deliver', 0], ['deliver', 0]]
+    for table, side, is_req in ((_RESP, 'B', False), (_REQ, 'A', True)):
+        for base, groups in table.items():
+            for exch, names in groups:
+                for name in names:
+                    out.append((f'dev{side}/{base}/{exch}/{name}', [['mutate', side, name, exch, is_req]] + scripted(base)
+                                + tail, {}, 11, {side}))
+    # some deviations need a configuration to bite (PFS, a second DH group, tunnel mode)
+    for side, is_req, name, exch, base, conf in (
+            ('B', False, 'invalid_ke_14', 'init', 'handshake', {'dh': ('ecp256', '14')}),
+            ('B', False, 'invalid_ke_14', 'child', 'rekey_ike', {'dh': ('ecp256', '14')}),
+            ('B', False, 'invalid_ke_19', 'child', 'new_child', {'child_dh': ('14', 'ecp256')}),
+            ('B', False, 'invalid_ke_31', 'child', 'new_child', {'child_dh': ('14', 'ecp256')}),
+            ('B', False, 'drop_ke', 'child', 'new_child', {'child_dh': ('14',)}),
+            ('A', True, 'drop_ke', 'child', 'new_child', {'child_dh': ('14',)}),
+            ('A', True, 'ke_group_19', 'child', 'rekey_child', {'child_dh': ('14', 'ecp256')}),
+            ('A', True, 'mode_flip', 'auth', 'handshake', {'mode': 'tunnel'}),
+            ('B', False, 'mode_flip', 'auth', 'handshake', {'mode': 'tunnel'})):
+        out.append((f'dev{side}/{base}/{exch}/{name}/conf', [['mutate', side, name, exch, is_req]] + scripted(base) + tail,
+                    conf, 12, {side}))
+    for label, conf in ASYM_CONFS:
+        for base in ('new_child', 'rekey_child', 'new_child_from_responder'):
+            out.append((f'asym/{label}/{base}', scripted(base) + tail, conf, 13, set()))
+    out.append(('acquire_unknown_index', scripted('handshake') + [['acquire_index', 'A', 81, 99], ['deliver', 0],
+                                                                   ['acquire_index', 'B', 0, 98]], {}, 14, set()))
+    # IKE_SA_INIT request retransmitted to a responder that already has keys (INIT_RES_SENT); wrong-role copies
+    out.append(('init_retransmission', [['acquire', 'A', 80], ['dup', 0], ['deliver', 0], ['deliver', 0], ['deliver', 0],
+                                        ['deliver', 0], ['deliver', 0], ['replay', 0]], {}, 15, set()))
+    # what the controller drops or ignores, the status query, unknown exchange types, wrong role / SPI pairs, RSA
+    from sim.testkeys import RSA
+    hs = scripted('handshake')
+    bare = (bytes(range(1, 9)) + bytes(8) + bytes([0, 0x20, 34, 0x00]) + bytes(4) + (28).to_bytes(4, 'big')).hex()
+    out.append(('edge/controller', [['inject', 'B', '00112233', '192.168.0.1'], ['acquire', 'A', 80],
+                                    ['reinject', 0, 'B', '192.168.0.9', 'asis'], ['inject', 'B', bare, '192.168.0.1'],
+                                    ['status', 'B']] + hs[1:] +
+                [['expire_spi', 'A', 'deadbeef', 1], ['expire_spi', 'B', 'deadbeef', 0], ['status', 'A'], ['status', 'B'],
+                 ['inject', 'A', 'ff' * 40, '192.168.0.2'], ['tick', 1]], {}, 16, set()))
+    for mode in ('swap_spis', 'other_peer_spi', 'flip_i'):
+        for k, side in ((2, 'A'), (2, 'B'), (3, 'A'), (3, 'B'), (0, 'A'), (1, 'B')):
+            out.append((f'edge/reinject/{mode}/{k}{side}', hs + [['reinject', k, side, None, mode], ['tick', 1]] + tail,
+                        {}, 17, set()))
+    for side, is_req, base, exch in (('A', True, 'new_child', 'child'), ('A', True, 'delete_child', 'info'),
+                                     ('B', False, 'new_child', 'child'), ('B', False, 'dpd', 'info'),
+                                     ('B', False, 'handshake', 'auth'), ('A', True, 'handshake', 'auth')):
+        out.append((f'dev{side}/{base}/{exch}/exch_38', [['mutate', side, 'exch_38', exch, is_req]] + scripted(base) + tail,
+                    {}, 18, {side}))
+    for base in ('handshake', 'rekey_ike', 'rekey_child_from_responder'):
+        out.append((f'rsa/{base}', scripted(base) + tail, {'rsa': list(RSA)}, 19, set()))
+    out.append(('rsa/wrong_key_at_b', hs + tail, {'rsa': [RSA[0], RSA[3], RSA[2], RSA[3]]}, 19, set()))
+    out.append(('rsa/wrong_key_at_a', hs + tail, {'rsa': [RSA[0], RSA[1], RSA[2], RSA[1]]}, 19, set()))
+    if not deep:
+        # the quick tier takes a seeded third of the deviations and reinjections and half of the asymmetric
+        # configurations (the seed rotates them); everything else always
+        rng = random.Random(seed)
+        dev = [x for x in out if x[0].startswith('dev')]
+        rei = [x for x in out if x[0].startswith('edge/reinject')]
+        asym = [x for x in out if x[0].startswith('asym')]
+        rest = [x for x in out if not x[0].startswith(('dev', 'edge/reinject', 'asym'))]
+        out = (rng.sample(dev, len(dev) // 3) + rng.sample(rei, len(rei) // 3) + rng.sample(asym, len(asym) // 2) + rest)
+    return out
+
+
 def scenario_set(ctx, deep):
     """(label, actions, conf, seed) of the runs whose calls are replayed in the model."""
     from sim.scenarios import SCRIPTED, SPECIAL, CONF_FAMILY, scripted, random_walk
@@ -190,6 +313,8 @@ def scenario_set(ctx, deep):
         rng = __import__('random').Random(ctx.seed * 1000 + k)
         conf = dict(rng.choice([{}] + fam[:8]))
         out.append((f'walk{k}', random_walk(rng, rng.choice([15, 30, 60])), conf, 100 + k))
+    out = [x + (set(),) for x in out]
+    out += deviant_set(deep, ctx.seed)
     return out
 
 
@@ -197,7 +322,7 @@ def correspond(ctx, deep=False, project=None, only=None):
     """Returns a list of core.Failure('correspondence', ...) (empty when the model and the code agree)."""
     fails = []
     alllogs = {}
-    for label, acts, conf, seed in scenario_set(ctx, deep):
+    for label, acts, conf, seed, skip in scenario_set(ctx, deep):
         if only and not only(label):
             continue
         try:
@@ -211,6 +336,8 @@ def correspond(ctx, deep=False, project=None, only=None):
             fails.append(core.Failure('correspondence', 'handlers:recorder', f'{label}: {pr}',
                                       {'scenario': label, 'actions': acts, 'conf': conf, 'seed': seed}))
         for ep, lg in logs.items():
+            if ep in skip:          # the deviant endpoint of the history: its own behaviour is not the daemon's
+                continue
             alllogs[f'{label}#{ep}'] = (lg, acts, conf, seed)
             ctx.case(('hdl', label, ep, len(lg.calls)), nontrivial=len(lg.calls) > 3)
             for c in lg.calls:
